@@ -91,16 +91,24 @@ def summary(events, label_owned=True):
 
 
 # ---- one traced request: ownership oracle + correspondence case -----------------------------------
+_RECENT = []   # the traced requests served earlier in this process (module-level state in pydap would link them)
+
+
 def traced_case(ctx, spec, url, kind, cases, tid=7):
+    prev = list(_RECENT[-3:])
+    _RECENT.append([spec, url])
     app, handler, ds = F.make_app(spec)
     T.share(ds)
     snap = F.snapshot(ds)
     out, tr = T.traced_call(app, url, "t%d" % tid, F.call)
     case = {"oracle": "ownership", "spec": spec, "url": url}
     if tr.foreign:
+        leaked = any(f[3] != T.SHARED for f in tr.foreign)   # object of an *earlier request*: replay needs those too
+        if leaked:
+            case["earlier"] = prev
         ctx.oracle_fail("request wrote to an object it did not allocate", case,
                         sorted(set(map(str, tr.foreign)))[:6], "writes only to objects allocated by the request",
-                        size=len(repr(spec)) + len(url))
+                        size=len(repr(spec)) + len(url) + (100000 if leaked else 0))
     if F.snapshot(ds) != snap:
         ctx.oracle_fail("served dataset changed by one request", case, "snapshot differs", "unchanged",
                         size=len(repr(spec)) + len(url))
@@ -254,6 +262,10 @@ def replay(payload):
         return history_replay(c["spec"], c["urls"])
     if c["oracle"] == "ownership":
         T.install()
+        for spec0, url0 in c.get("earlier", []):
+            app0, _, ds0 = F.make_app(spec0)
+            T.share(ds0)
+            T.traced_call(app0, url0, "earlier", F.call)
         app, handler, ds = F.make_app(c["spec"])
         T.share(ds)
         snap = F.snapshot(ds)
